@@ -628,12 +628,12 @@ MATCHERS = {'lookup_key_depends_on_own_column': _lookup_matcher}
 
 def correspond(ctx):
   """Recorded update loops of cyclic documents without try/except, replayed by the model (as C06)."""
-  cases = K2.traced_cases(ctx, ctx.n(35, 600), p_try=0.0)
+  cases = K2.traced_cases(ctx, ctx.n(35, 600), p_try=0.0, p_tryo=0.15, p_lookup=0.3)
   for term, info, st, _strict, _edges in cases:
     nontrivial = bool(st.get('cycle'))
     ctx.count(term, nontrivial=nontrivial, sample=info if nontrivial else None,
               kind='tie:' + ('cycle' if st.get('cycle') else 'reorder' if st.get('need') else 'plain'))
-    for k in ('done', 'need', 'cycle', 'opp', 'opp_abandoned'):
+    for k in ('done', 'need', 'cycle', 'opp', 'opp_abandoned', 'invalidated'):
       ctx.bump('events:' + k, st.get(k, 0))
   bad = K2.run_tie(ctx, 'tie', cases)
   for j, which in bad[:5]:
